@@ -105,9 +105,17 @@ def prove(res: "Result", module: str, theorems: list[str]) -> bool:
                          "harness/facto_dump.py (artefact capture) and Lean's JSON decoding"],
         "theorems": {t: ("ok" if (a is not None and set(a) <= STD_AXIOMS) else ("missing" if a is None else "axioms:" + ",".join(a))) for t, a in audited.items()},
     })
-    res.proof_ok = ok and not bad_axioms and not missing and not forbidden
+    # thorough tier: the toolchain's independent re-checker replays the compiled proof module in a fresh kernel
+    recheck_ok = True
+    if ok and getattr(res, "tier", "quick") == "thorough":
+        pr = subprocess.run(["lake", "env", "leanchecker", module], cwd=LEAN_DIR, capture_output=True, text=True)
+        out = (pr.stdout + pr.stderr).strip()
+        recheck_ok = pr.returncode == 0 and "exception" not in out and "error" not in out.lower()
+        res.coverage["leanchecker"] = {"module": module, "ok": recheck_ok, "output": out[-300:]}
+    res.proof_ok = ok and not bad_axioms and not missing and not forbidden and recheck_ok
     res.proof_log = log if not ok else ""
-    res.proof_problems = {"build_failed": not ok, "missing": missing, "bad_axioms": bad_axioms, "forbidden": forbidden}
+    res.proof_problems = {"build_failed": not ok, "missing": missing, "bad_axioms": bad_axioms, "forbidden": forbidden,
+                          "leanchecker_failed": not recheck_ok}
     return res.proof_ok
 
 
